@@ -575,6 +575,9 @@ def run(ctx, rep):
     c01_choice.run(ctx, rep, rid="R-C09-choiceid")
     from rules import c09_scale
     c09_scale.run(ctx, rep)
+    # character strings are read character by character: nothing rewrites the raw text (inside literals too) before the lexer
+    from rules.c08 import rule_prestep
+    rule_prestep(ctx, rep, rid="R-C09-prestep")
     from rules import c03_errdrop
     c03_errdrop.run(ctx, rep, rid="R-C09-errdrop")
     # arithmetic/panicking constructors on literal paths are shared with C04 (R-C04-panic): report the literal subset here too
